@@ -266,6 +266,8 @@ def run(ctx):
                        kinds={'corpus', 'seed', 'element', 'statement'})
         # the whole pipeline on the same grammar (C03_expand_element_text): oracle = merged mentions through the output table
         atg.run_expand_stream(ctx, 'C03', 900 if ctx.tier == 'quick' else 20000)
+        # whole statements through markup.parse (C03_statement_markup_parse): every place carries its own element's mentions
+        atg.run_stmt_parse_stream(ctx, 'C03', 600 if ctx.tier == 'quick' else 15000)
     ctx.cov['corpus_cases'] = n_corpus
     for (abbr, cfg, exp, mode), r in list(zip(cases, impl))[n_corpus + 3000:n_corpus + 3004]:
         ctx.sample({'abbr': abbr, 'config': cfg, 'output': r[1][:160] if r[0] == 'ok' else r})
@@ -280,6 +282,8 @@ def replay(ctx, obj):
         return atg.replay(rp)
     if rp.get('component') == 'C03expand':
         return atg.replay_expand(rp)
+    if rp.get('component') == 'stmt-parse':
+        return atg.replay_stmt_parse(rp)
     exp = [(t, ms) for t, ms in rp['expected']]
     why, plain = (check_verbatim if rp.get('mode') == 'verbatim' else check_case)(rp['abbr'], rp['config'], exp)
     print('expand(%r, %r) -> %r\nproperty oracle: %s' % (rp['abbr'], rp['config'], plain, why or 'holds'))
